@@ -81,6 +81,14 @@ CLAIMED = {
              "evaluated on a permuted copy; the implementation's decision is compared with both the model and the spec.",
         design="§7 C02, §8 F1 F2",
         technique="Lean 4 proof (refinement of the flattening to the declared semantics) + differential correspondence"),
+    "C18": dict(
+        text="Lean theorems: xml_escape (five sequential replacements) equals the character-wise escape, its output has no markup "
+             "character, decoding gives the text back; batching (model of send_events as a well-founded recursion): every batch is "
+             "non-empty and smaller than the generated cap = 64 KiB, batches and dropped events partition the input, only events that "
+             "alone exceed the cap are dropped and they do not block the rest, uploads stop at the first success within five attempts, "
+             "consumed files are removed. Tied to the real EventReader against a mock host: POST bodies are compared byte-for-byte with "
+             "the model's batches and parsed twice by an independent XML parser (expat).",
+        design="§7 C18", technique="Lean 4 proof (induction / functional induction) + differential correspondence"),
     "C20": dict(
         text="Lean theorems over all finite observation/notification histories (induction, invariant) about the "
              "model of StatusState/ServiceState instantiated with constants regenerated from the source; the model "
